@@ -249,10 +249,16 @@ fn body(p: &P) -> Result<(), String> {
 }
 
 pub fn scenarios(tier: Tier) -> Vec<Scenario> {
-    let mut v = Vec::new();
-    let mut add = |p: P, bound: u32| {
+    scenario_params(tier).into_iter().map(|(p, bound)| {
         let name = p.name();
-        v.push(Scenario::new(name, sched_cfg(), bound, move || body(&p)));
+        Scenario::new(name, sched_cfg(), bound, move || body(&p))
+    }).collect()
+}
+
+pub fn scenario_params(tier: Tier) -> Vec<(P, u32)> {
+    let mut v: Vec<(P, u32)> = Vec::new();
+    let mut add = |p: P, bound: u32| {
+        v.push((p, bound));
     };
     use RecvMode::*;
     use Sz::*;
@@ -290,6 +296,199 @@ pub fn scenarios(tier: Tier) -> Vec<Scenario> {
         }
     }
     v
+}
+
+// ---------------------------------------------------------------------------
+// E3: the abstract packet-protocol model, bound to the implementation through real traces
+
+fn packets_of(sz: Sz) -> u8 {
+    match sz {
+        Sz::S | Sz::One => 1,
+        Sz::L2 => 2,
+        Sz::L3 => 3,
+    }
+}
+
+pub struct E3Stats {
+    pub model_states: u64,
+    pub model_transitions: u64,
+    pub traces_validated: u64,
+    pub edges_total: u64,
+    pub edges_covered: u64,
+    pub drift: Option<String>,
+    pub model_violations: Vec<String>,
+    pub directed_runs: u64,
+    pub directed_edges_total: u64,
+    pub directed_edges_covered: u64,
+    pub directed_capped: bool,
+}
+
+fn e3(tier: Tier, rep: &mut Report) -> E3Stats {
+    use crate::explore::{explore, ExploreCfg};
+    use crate::pmodel::{self, Config};
+    use std::cell::RefCell;
+    let mut st = E3Stats { model_states: 0, model_transitions: 0, traces_validated: 0, edges_total: 0, edges_covered: 0, drift: None, model_violations: vec![], directed_runs: 0, directed_edges_total: 0, directed_edges_covered: 0, directed_capped: false };
+    let bound = if tier.is_quick() { 1 } else { 2 };
+    for (p, _) in scenario_params(tier) {
+        let cfg = Config { packets: p.seqs.iter().map(|s| s.iter().map(|z| packets_of(*z)).collect()).collect() };
+        let g = pmodel::explore(&cfg);
+        st.model_states += g.states as u64;
+        st.model_transitions += g.transitions as u64;
+        st.edges_total += g.edges.len() as u64;
+        st.model_violations.extend(g.violations.iter().cloned());
+        let covered: RefCell<std::collections::HashSet<(u64, pmodel::PAct)>> = RefCell::new(Default::default());
+        let nval = RefCell::new(0u64);
+        let drift: RefCell<Option<String>> = RefCell::new(None);
+        let mut base = sched_cfg();
+        base.trace = true;
+        let mut ec = ExploreCfg::new(base, bound);
+        ec.determinism_every = 0;
+        ec.max_wall_s = if tier.is_quick() { 4.0 } else { 120.0 };
+        let pp = p.clone();
+        let stats = explore(&ec, &move || body(&pp), &|o| {
+            e1::strict_judge(o)?;
+            let r = o.result.as_ref().unwrap();
+            match pmodel::validate_trace(&cfg, &r.trace) {
+                Ok((edges, delivered)) => {
+                    *nval.borrow_mut() += 1;
+                    let mut c = covered.borrow_mut();
+                    for e in edges {
+                        c.insert(e);
+                    }
+                    let want = format!("{:?}", delivered.iter().map(|(s, m)| (*s as u32, *m as u32)).collect::<Vec<_>>());
+                    if r.obs.last().map(|x| x != &want).unwrap_or(true) {
+                        return Err(format!("the receiver observed {:?} but the packet model, following the same system-call trace, delivers {}", r.obs.last(), want));
+                    }
+                    Ok(())
+                },
+                Err(e) => {
+                    // the implementation no longer follows the modelled packet protocol: not a
+                    // verdict by itself (E1's oracle on the same executions is)
+                    let mut d = drift.borrow_mut();
+                    if d.is_none() {
+                        *d = Some(e);
+                    }
+                    Ok(())
+                },
+            }
+        });
+        for m in &stats.machinery_errors {
+            rep.machinery(format!("E3 pass, scenario {}: {}", p.name(), m));
+        }
+        for v in &stats.violations {
+            rep.fail(&format!("{:?} :: E3 pass of scenario {}", v.status, p.name()), json!({"engine": "E1", "scenario": p.name(), "choices": v.choices}));
+        }
+        st.traces_validated += *nval.borrow();
+        st.edges_covered += covered.borrow().iter().filter(|e| g.edges.contains(e)).count() as u64;
+        if st.drift.is_none() {
+            st.drift = drift.borrow().clone();
+        }
+    }
+    // model subset-of impl: every transition of the model graph (for the clone / blocking-receiver
+    // variant of each size mix) is covered by a model path that is replayed on the implementation
+    // under the scheduler's directed mode; the real trace must map back onto exactly that path
+    let mut seen_mix: std::collections::HashSet<String> = Default::default();
+    for (p, _) in scenario_params(tier) {
+        if p.seqs.len() > 2 && tier.is_quick() {
+            continue;
+        }
+        if !seen_mix.insert(format!("{:?}", p.seqs)) {
+            continue;
+        }
+        let cfg = Config { packets: p.seqs.iter().map(|s| s.iter().map(|z| packets_of(*z)).collect()).collect() };
+        let g = pmodel::explore(&cfg);
+        let sp = pmodel::shortest_paths(&cfg);
+        let mut covered: std::collections::HashSet<(u64, pmodel::PAct)> = Default::default();
+        let pp = P { seqs: p.seqs.clone(), transferred: false, mode: RecvMode::Blocking };
+        let mut edges: Vec<(u64, pmodel::PAct)> = g.edges.iter().copied().collect();
+        edges.sort_by_key(|(h, a)| (sp.get(h).map(|x| x.1.len()).unwrap_or(0), *h, format!("{:?}", a)));
+        let t0 = std::time::Instant::now();
+        let cap = if tier.is_quick() { 6.0 } else { 600.0 };
+        let mut idx = 0;
+        while idx < edges.len() {
+            if t0.elapsed().as_secs_f64() > cap {
+                st.directed_capped = true;
+                break;
+            }
+            // a wave of still-uncovered edges, replayed in parallel
+            let mut wave: Vec<(Vec<pmodel::PAct>, Vec<u8>)> = Vec::new();
+            while idx < edges.len() && wave.len() < 2 * crate::exec::default_workers() {
+                let (h, a) = edges[idx];
+                idx += 1;
+                if covered.contains(&(h, a)) {
+                    continue;
+                }
+                let Some((src, path0)) = sp.get(&h) else { continue };
+                let mut path = path0.clone();
+                path.push(a);
+                let Ok(next) = cfg.step(src, a) else { continue };
+                pmodel::complete(&cfg, &next, &mut path);
+                let d = pmodel::directive_of(&path);
+                wave.push((path, d));
+            }
+            let mut results: Vec<(usize, crate::exec::Outcome)> = Vec::new();
+            sweep(
+                &wave,
+                30.0,
+                &|w| {
+                    let mut c = sched_cfg();
+                    c.trace = true;
+                    c.directive = w.1.clone();
+                    c
+                },
+                &|_| body(&pp),
+                &mut |i, _, out| results.push((i, out.clone())),
+            );
+            for (i, out) in results {
+                let path = &wave[i].0;
+                st.directed_runs += 1;
+                match e1::strict_judge(&out) {
+                    Ok(()) => {},
+                    Err(e) if e.starts_with("MACHINERY") => {
+                        if st.drift.is_none() {
+                            st.drift = Some(format!("directed replay of a model path failed: {}", e));
+                        }
+                        continue;
+                    },
+                    Err(e) => {
+                        rep.fail(&format!("{} :: directed replay of model path {:?} on mix {:?}", e, path, p.seqs), json!({"engine": "E3-directed", "seqs": p.seqs, "path": format!("{:?}", path), "directive": wave[i].1}));
+                        continue;
+                    },
+                }
+                let r = out.result.as_ref().unwrap();
+                match pmodel::validate_trace(&cfg, &r.trace) {
+                    Ok((es, _)) => {
+                        let real: Vec<pmodel::PAct> = es.iter().map(|(_, a)| *a).collect();
+                        if pmodel::project(&real) != pmodel::project(path) {
+                            if st.drift.is_none() {
+                                st.drift = Some(format!("directed replay followed {:?} instead of the model path {:?}", pmodel::project(&real), pmodel::project(path)));
+                            }
+                            continue;
+                        }
+                        st.traces_validated += 1;
+                        for e in es {
+                            covered.insert(e);
+                        }
+                    },
+                    Err(e) => {
+                        if st.drift.is_none() {
+                            st.drift = Some(e);
+                        }
+                    },
+                }
+            }
+        }
+        st.directed_edges_total += g.edges.len() as u64;
+        st.directed_edges_covered += covered.iter().filter(|e| g.edges.contains(e)).count() as u64;
+    }
+    if !tier.is_quick() {
+        // the quantifier's largest configuration, model only
+        let g = pmodel::explore(&Config { packets: vec![vec![3, 3], vec![3, 2], vec![2, 3]] });
+        st.model_states += g.states as u64;
+        st.model_transitions += g.transitions as u64;
+        st.model_violations.extend(g.violations);
+    }
+    st
 }
 
 // ---------------------------------------------------------------------------
@@ -637,6 +836,20 @@ pub fn run(tier: Tier, part_only: bool) -> i32 {
     rep.sample(json!({"forked_process_packet_interleaving": gcs[gcs.len() / 2]}));
     rep.set("forked_process_cases", json!(nproc));
     rep.sample(json!({"forked_process_case": pcs[pcs.len() / 2]}));
+    let e3s = e3(tier, &mut rep);
+    for v in &e3s.model_violations {
+        rep.fail(&format!("the packet-protocol model itself violates its invariants: {}", v), json!({"engine": "E3-model"}));
+    }
+    if let Some(d) = &e3s.drift {
+        println!("MODEL-DRIFT property=C02 the implementation's system-call traces no longer map onto the packet-protocol model ({}); E3 numbers are not a statement about this tree, the verdict is E1's", d);
+        rep.set("e3_model_drift", json!(d));
+    }
+    rep.set("e3_packet_model", json!({"model_states": e3s.model_states, "model_transitions": e3s.model_transitions,
+        "real_traces_accepted_by_model": e3s.traces_validated, "model_edges_total": e3s.edges_total, "model_edges_exercised_by_free_exploration": e3s.edges_covered,
+        "directed_replays_of_model_paths": e3s.directed_runs, "directed_model_edges_total": e3s.directed_edges_total, "directed_model_edges_covered": e3s.directed_edges_covered, "directed_capped": e3s.directed_capped}));
+    rep.add("states", e3s.model_states);
+    rep.add("transitions", e3s.model_transitions);
+    rep.add("traces_validated_against_impl", e3s.traces_validated);
     rep.set("deviation_bound_min", json!(tot.min_bound));
     rep.set("deviation_bound_max", json!(tot.max_bound));
     rep.set("evaluations", json!(tot.execs + nproc + ngate));
